@@ -223,6 +223,9 @@ macro_rules! define_gfgen { ($typename:ident, $fieldparams:ident, $submod:ident,
 
         #[inline]
         pub fn set_cond(&mut self, a: &Self, ctl: u32) {
+            // Barrier: prevent the compiler from turning the masking below
+            // into a conditional jump on the (possibly secret) control word.
+            let ctl = core::hint::black_box(ctl);
             let cw = ((ctl as i32) as i64) as u64;
             for i in 0..Self::N {
                 self.0[i] ^= cw & (self.0[i] ^ a.0[i]);
@@ -238,6 +241,9 @@ macro_rules! define_gfgen { ($typename:ident, $fieldparams:ident, $submod:ident,
 
         #[inline]
         pub fn cswap(a: &mut Self, b: &mut Self, ctl: u32) {
+            // Barrier: prevent the compiler from turning the masking below
+            // into a conditional jump on the (possibly secret) control word.
+            let ctl = core::hint::black_box(ctl);
             let cw = ((ctl as i32) as i64) as u64;
             for i in 0..Self::N {
                 let t = cw & (a.0[i] ^ b.0[i]);
@@ -595,7 +601,7 @@ macro_rules! define_gfgen { ($typename:ident, $fieldparams:ident, $submod:ident,
 
             // Add p (at most twice) as long as the value is negative.
             for _ in 0..2 {
-                let m = sgnw(hi);
+                let m = core::hint::black_box(sgnw(hi));
                 let mut cc = 0;
                 for i in 0..Self::N {
                     let (d, ee) = addcarry_u64(
@@ -885,7 +891,7 @@ macro_rules! define_gfgen { ($typename:ident, $fieldparams:ident, $submod:ident,
 
             // If y != 0 then b = 1 at this point. If y == 0, then we
             // force the result to zero.
-            let w = !y.iszero();
+            let w = core::hint::black_box(!y.iszero());
             let w = ((w as u64) << 32) | (w as u64);
             for i in 0..Self::N {
                 self.0[i] &= w;
